@@ -5,7 +5,11 @@ Notation llist := (list (N * list N)) (only parsing).
 
 Inductive case :=
 | CBatch (bodies : list body) (l0 : list (N * list N)) (ids : list N) (o_res : list ires) (o_led : list (N * list N))
-| CTasks (bodies : list body) (l0 : list (N * list N)) (ts : list task) (o_res : list ires) (o_led : list (N * list N)).
+| CTasks (bodies : list body) (l0 : list (N * list N)) (ts : list task) (o_res : list ires) (o_led : list (N * list N))
+(* a batch of library operations that announce something in the batch reply (swapBegin -> created swaps, multiSwapBegin ->
+   created multi-swaps): per listed transaction, in listed order, its number, whether it is a multi-swap begin and whether
+   its reply carries no error; and the numbers of the transactions whose swap / multi-swap the reply announces *)
+| CAnnounce (listed : list (N * bool * bool)) (o_swaps o_mswaps : list N).
 
 Definition same_led (m : ledger) (l : list (N * list N)) : bool :=
   let ml : ledger := list_to_map l in
@@ -17,7 +21,12 @@ Definition corr (c : case) : bool :=
                                     bool_decide (rs = res) && same_led l led
   | CTasks bodies l0 ts res led => let '(l, rs) := tasks_exec bodies (list_to_map l0) ts in
                                    bool_decide (rs = res) && same_led l led
+  | CAnnounce _ _ _ => true     (* nothing of the model is involved: a predicate on the reply alone *)
   end.
+
+(* what a reply must announce: exactly what its successful transactions produced, in their order *)
+Definition announced (multi : bool) (listed : list (N * bool * bool)) : list N :=
+  List.map (fun x => fst (fst x)) (List.filter (fun x => Bool.eqb (snd (fst x)) multi && snd x) listed).
 
 (* the property on the implementation's outputs: replies and final ledger equal those of
    serial all-or-nothing execution *)
@@ -27,6 +36,7 @@ Definition holds (c : case) : bool :=
                                     bool_decide (rs = res) && same_led l led
   | CTasks bodies l0 ts res led => let '(l, rs) := spec_tasks bodies (list_to_map l0) ts in
                                    bool_decide (rs = res) && same_led l led
+  | CAnnounce listed sw ms => bool_decide (sw = announced false listed) && bool_decide (ms = announced true listed)
   end.
 
 Definition res_bit (r : ires) : N :=
@@ -37,4 +47,5 @@ Definition label (c : case) : N :=
   match c with
   | CBatch _ _ _ res _ => fold_right (fun r a => N.lor a (res_bit r)) 64%N res
   | CTasks _ _ _ res _ => fold_right (fun r a => N.lor a (res_bit r)) 128%N res
+  | CAnnounce listed _ _ => fold_right (fun (x : N * bool * bool) a => N.lor a (if snd x then 1024%N else 2048%N)) 512%N listed
   end.
